@@ -632,6 +632,41 @@ class Evaluator:
         else:
             raise Undecided("bind target")
 
+    def _match(self, pat: ast.AST, v: Any, env: Dict[str, Any], binds: Dict[str, Any]) -> bool:
+        """structural pattern matching for the pattern kinds a library like this uses"""
+        if isinstance(pat, ast.MatchValue):
+            return self.truth(self.compare(ast.Eq(), v, self.eval(pat.value, env)))
+        if isinstance(pat, ast.MatchSingleton):
+            return v is pat.value
+        if isinstance(pat, ast.MatchOr):
+            return any(self._match(q, v, env, binds) for q in pat.patterns)
+        if isinstance(pat, ast.MatchAs):
+            if pat.pattern is not None and not self._match(pat.pattern, v, env, binds):
+                return False
+            if pat.name:
+                binds[pat.name] = v
+            return True
+        if isinstance(pat, ast.MatchSequence):
+            if not isinstance(v, (list, tuple)):
+                return False
+            stars = [i for i, q in enumerate(pat.patterns) if isinstance(q, ast.MatchStar)]
+            if not stars:
+                return len(v) == len(pat.patterns) and all(self._match(q, x, env, binds) for q, x in zip(pat.patterns, v))
+            i = stars[0]
+            after = len(pat.patterns) - i - 1
+            if len(v) < len(pat.patterns) - 1:
+                return False
+            if not all(self._match(q, x, env, binds) for q, x in zip(pat.patterns[:i], v[:i])):
+                return False
+            if after and not all(self._match(q, x, env, binds) for q, x in zip(pat.patterns[i + 1:], v[len(v) - after:])):
+                return False
+            if pat.patterns[i].name:
+                binds[pat.patterns[i].name] = list(v[i:len(v) - after])
+            return True
+        if isinstance(pat, ast.MatchClass) and not pat.patterns and not pat.kwd_patterns:
+            return self.isinstance(v, pat.cls, env)
+        raise Undecided(f"match pattern {type(pat).__name__}")
+
     def truth(self, v: Any) -> bool:
         if isinstance(v, (bool, int, list, tuple, str, dict, set, _re.Match)) or v is None:
             return bool(v)
@@ -1054,6 +1089,17 @@ class Evaluator:
                     raise Undecided("del target")
         elif isinstance(st, ast.FunctionDef):
             env[st.name] = _Closure2(st, self, env)
+        elif isinstance(st, ast.Match):
+            subj = self.eval(st.subject, env)
+            for case in st.cases:
+                binds: Dict[str, Any] = {}
+                if self._match(case.pattern, subj, env, binds):
+                    env2 = env
+                    env2.update(binds)
+                    if case.guard is not None and not self.truth(self.eval(case.guard, env2)):
+                        continue
+                    self.block(case.body, env2)
+                    break
         elif isinstance(st, ast.Try):
             try:
                 self.block(st.body, env)
